@@ -3,6 +3,7 @@ import CoercionModel.Model.Types
 import CoercionModel.Model.Walk
 import CoercionModel.Model.Attempts
 import CoercionModel.Model.Builder
+import CoercionModel.Model.BuilderRef
 import CoercionModel.Model.Validate
 import CoercionModel.Model.Engine
 import CoercionModel.Model.Startup
